@@ -672,6 +672,40 @@ theorem C30_old_store_key_not_transparent :
   ⟨[([.text ['\'', '%', '\'', ','], .expr ['x'] false], .format),
     ([.text ['\'', '%', '%', '\'', ','], .expr ['x'] false], .format)], by decide⟩
 
+/-! ### `raw_sql()` fragments in queries: the translator cache never binds a value through another type's converter -/
+
+/-- for ALL histories of query executions against one database (any fragments, any parameter types, any order): every
+    run binds its values through the converters of ITS OWN parameter types — the answer of a run does not depend on which
+    types the same fragment was executed with before -/
+theorem C30_rawsql_converters_own (history : List (List Tok × List PyType)) :
+    runQueries qkeyAsCoded [] history = history.map (·.2) := by
+  suffices h : ∀ c : List (QKey × List PyType), (∀ kv ∈ c, kv.2 = kv.1.2) →
+      runQueries qkeyAsCoded c history = history.map (·.2) from h [] (by intro kv h; cases h)
+  induction history with
+  | nil => intro c _; rfl
+  | cons q rest ih =>
+    intro c hc
+    obtain ⟨toks, types⟩ := q
+    simp only [runQueries, queryWith, List.map_cons]
+    cases hl : List.lookup (qkeyAsCoded toks types) c with
+    | some conv =>
+      have := hc _ (lookup_mem _ conv c hl)
+      simp only [qkeyAsCoded] at this
+      simp only [this, ih c hc]
+    | none =>
+      simp only
+      rw [ih _ (by
+        intro kv hkv
+        rcases List.mem_cons.mp hkv with rfl | h'
+        · rfl
+        · exact hc kv h')]
+
+/-- … and the statement is sensitive to the key: if the key forgot the parameter types, the second of these two runs of
+    the same fragment (first an int, then a Decimal) would be bound through the int converter -/
+theorem C30_rawsql_key_without_types_wrong :
+    ∃ history, runQueries qkeyWithoutTypes [] history ≠ history.map (·.2) :=
+  ⟨[([.text ['a', '='], .expr ['x'] false], [.int]), ([.text ['a', '='], .expr ['x'] false], [.decimal])], by decide⟩
+
 /-! ### `raw_sql()` fragments -/
 
 /-- `parse_raw_sql`: the expression texts in order; in the SQL AST the strings are passed verbatim (`$$ ↦ $`) and the
